@@ -6,6 +6,7 @@ BUD="${1:-60}"; PAT="${2:-}"
 for f in mutants/*.diff seeded/*/patch.diff; do
   [ -f "$f" ] || continue
   case "$f" in *$PAT*) ;; *) continue;; esac
+  if [[ "$f" == seeded/* ]] && python3 -c "import json,sys;sys.exit(0 if json.load(open('$(dirname $f)/meta.json')).get('undecidable') else 1)"; then echo "SKIPPED (changes an API the harness links against) [$f]"; continue; fi
   if [[ "$f" == seeded/* ]]; then P=$(python3 -c "import json,sys;m=json.load(open('$(dirname $f)/meta.json'));print(m.get('checked_by',[m['property']])[0])"); else P=$(basename "$f" | cut -c1-3); fi
   ./mutcheck.sh "$f" "$P" "$BUD" 2>&1 | grep -E "^(CAUGHT|MISSED|ERROR|PATCH-FAILED)" | sed "s#\$# [$f]#"
 done
